@@ -4,6 +4,9 @@ from pathlib import Path
 HERE = Path(__file__).resolve().parent
 ALL = ["tri", "floats", "strings", "containers", "account", "colors", "queue_", "printer", "lastcall", "safefloats"]
 RANDOM_USING = ["rng_user"]
+# not part of ALL (other checks iterate ALL): copy them by name
+STATE_BETWEEN_EXECUTIONS = ["tickets"]  # C21: assertions that fail / error when the test is executed again in the same process
+SHARED_LINES = ["shared_lines", "oneline_first"]  # C35: one source line = entry of code objects + predicates of another one
 # deterministic, but with unannotated / Union parameters, a class hierarchy and a pragma-excluded branch; used by C16 only
 # (kept out of ALL so that the workloads of the other whole-pipeline checks do not change)
 EXTRA = ["untyped"]
